@@ -4,12 +4,12 @@ _F = ['pywbem_mock._mainprovider:MainProvider._pull_response', 'pywbem_mock._mai
 HARNESSES = [
     dict(name='H1-pull-step', engine='crosshair', module='c14_pull', function='pull_step', reach='pull_step_reach',
          functions=_F[:1], stubs=['_format -> constant', 'namespace validation -> boolean ns_ok'],
-         bounds='remaining objects 1..8, second session 1..2, MaxObjectCount any int >= 0 or None (unbounded)',
+         bounds='remaining objects 1..5 (quick) / 1..8 (thorough), second session 1..2, MaxObjectCount any int >= 0 or None (unbounded), server default batch size any int >= 1 (unbounded)',
          quick=dict(timeout=90, parts=9), thorough=dict(timeout=600, parts=9)),
     dict(name='H1-open-step', engine='crosshair', module='c14_pull', function='open_step', reach='open_step_reach',
          functions=_F[1:2], stubs=['_format -> constant', '_create_contextid -> counter', 'perf_counter real'],
-         bounds='result size 0..8, MaxObjectCount any int >= 0 or None (unbounded), 0..2 pre-existing contexts',
-         quick=dict(timeout=90), thorough=dict(timeout=600)),
+         bounds='result size 0..5 (quick) / 0..8 (thorough), MaxObjectCount any int >= 0 or None (unbounded), server default batch size any int >= 1 (unbounded), 0..2 pre-existing contexts',
+         quick=dict(timeout=90, parts=3), thorough=dict(timeout=600, parts=9)),
     dict(name='H1-close-step', engine='crosshair', module='c14_pull', function='close_step', reach='close_step_reach',
          functions=_F[2:3], stubs=['_format -> constant'],
          bounds='0..3 contexts, context id in/out of table, pull disabled or not',
